@@ -95,6 +95,10 @@ type Listener struct {
 	// Profiles for accepted connections (server->client, client->server)
 	ToClient, ToServer Profile
 	Closed bool
+	// RecordClient: record every operation of the dialling (client) endpoint
+	RecordClient bool
+	// OnAccept, if set, is called with the two endpoints right after the connection is made
+	OnAccept func(client, server *Conn)
 }
 
 // Net is the simulated network of one run.
@@ -153,6 +157,10 @@ func (n *Net) DialConn(address string) (*Conn, error) {
 	cl := &Conn{n: n, ID: id, Name: fmt.Sprintf("c%d:client->%s", id, address), in: a, out: b, local: addr(fmt.Sprintf("10.9.9.9:%d", 40000+id)), remote: addr(address)}
 	sv := &Conn{n: n, ID: id + 1, Name: fmt.Sprintf("c%d:server@%s", id+1, address), in: b, out: a, local: addr(address), remote: cl.local}
 	cl.peer, sv.peer = sv, cl
+	cl.Record = l.RecordClient
+	if l.OnAccept != nil {
+		l.OnAccept(cl, sv)
+	}
 	if t != nil {
 		cl.owner = t.Proc
 		t.Proc.OnDeath(func() { cl.abort() })
